@@ -30,6 +30,13 @@ Proof.
   intros Hk He. destruct e as [i kd own data kids]. cbn [c_subels]. right. apply in_flat_map. exists (k, tl). auto.
 Qed.
 
+Lemma subels_trans c : forall e x, In e (c_subels c) -> In x (c_subels e) -> In x (c_subels c).
+Proof.
+  induction c as [i k own data kids IH] using cel_ind'. intros e x He Hx. cbn [c_subels] in He.
+  destruct He as [<-|He]; [exact Hx|]. apply in_flat_map in He. destruct He as [[y ty] [Hy He]].
+  rewrite Forall_forall in IH. cbn [c_subels]. right. apply in_flat_map. exists (y, ty). split; [exact Hy|].
+  exact (IH (y, ty) Hy e x He Hx).
+Qed.
 Lemma subel_subtree c : forall inh e, In e (c_subels c) -> exists inh', In (abs_el inh' e) (subtrees (abs_el inh c)).
 Proof.
   induction c as [i k own data kids IH] using cel_ind'. intros inh e He. cbn [c_subels] in He.
@@ -309,7 +316,7 @@ Section ChainPlace.
   Proof.
     intros [<-|Hin].
     - exists [], (map t_id app). split; [reflexivity|]. split; [|split].
-      + rewrite (head_next h Hkeys pos b hid s app Hpos Hincl Happ fu). destruct app; reflexivity.
+      + rewrite (head_next h Hkeys pos b hid s app Hpos Hincl Happ fu Hfu). destruct app; reflexivity.
       + rewrite (head_prev h Hkeys pos b hid s app Hpos Hincl fu). reflexivity.
       + exact (head_parent h Hkeys pos b hid s app Hpos Hincl fu).
     - apply in_map_iff in Hin. destruct Hin as [a [<- Ha]]. destruct (in_split _ _ Ha) as [la [lb E]].
@@ -368,23 +375,216 @@ Proof. apply map_app. Qed.
 Lemma last_flat_kitem_empty_tail k1 q tq : chain_texts tq = [] ->
   last_error (flat_map kitem (k1 ++ [(q, tq)])) = Some (cid q).
 Proof. intros E. rewrite flat_map_app. cbn [flat_map]. unfold kitem at 2. cbn [fst snd]. rewrite E, app_nil_r. cbn [map]. apply last_error_app. Qed.
-Lemma cel_ids_abs_length c : forall inh, length (ids (abs_el inh c)) <= length (cel_ids c).
+Lemma flat_ids_atext l : flat_map ids (map atext l) = map t_id l.
+Proof. induction l as [|x r IH]; [reflexivity|]. cbn. rewrite IH. reflexivity. Qed.
+(* on a well-formed tree the abstract nodes are exactly the objects, in the same order *)
+Lemma abs_ids c : forall inh, el_ok c = true -> ids (abs_el inh c) = cel_ids c.
 Proof.
-  intros inh. rewrite <- (heap_keys c None None None no_chain). rewrite map_length.
-  (* a coarse bound is enough: every abstract node is a key of the heap; proved via NoDup-free counting below *)
-  revert inh. induction c as [i k own data kids IH] using cel_ind'. intros inh. rewrite heap_el_unfold.
-  cbn [abs_el]. rewrite ids_unfold. cbn [length]. apply le_n_S. rewrite app_length, flat_map_app, app_length.
-  apply Nat.add_le_mono.
-  - rewrite <- (map_length fst), chain_objs_keys. unfold chain_ids, chain_texts.
-    destruct (ch_slot data), (ch_head data); cbn; rewrite ?app_length, ?map_length;
-      try (rewrite flat_map_concat_map, map_map; cbn; clear; induction (ch_app data); cbn; lia); cbn; lia.
-  - generalize (@None nid) as prev. induction IH as [|[x tx] r Hx _ IHr]; intros prev; [cbn; lia|].
-    rewrite heap_kids_cons. cbn [flat_map]. rewrite flat_map_app, !app_length. cbn [flat_map length]. rewrite app_nil_r.
-    specialize (IHr (Some (cid x))). specialize (Hx (in_scope inh own)).
-    rewrite <- (map_length fst (heap_el _ _ _ _ x)), heap_keys in *. rewrite <- (map_length fst (chain_objs _ _ _)), chain_objs_keys.
-    assert (Ht : length (flat_map ids (map atext (chain_texts tx))) <= length (chain_ids tx)).
-    { unfold chain_ids, chain_texts. destruct (ch_slot tx), (ch_head tx); cbn; rewrite ?app_length, ?map_length;
-        try (rewrite flat_map_concat_map, map_map; cbn; clear; induction (ch_app tx); cbn; lia); cbn; lia. }
-    cbn [fst] in Hx. rewrite flat_map_app. rewrite app_length. cbn [flat_map]. rewrite app_nil_r.
-    rewrite <- (map_length fst (heap_el _ _ _ _ x)), heap_keys. lia.
+  induction c as [i k own data kids IH] using cel_ind'. intros inh Hok.
+  destruct (el_ok_parts _ Hok) as [Hd [Hk _]]. cbn [cdata ckids] in Hd, Hk.
+  assert (Hkok : forall x tx, In (x, tx) kids -> el_ok x = true).
+  { intros x tx Hx. apply (subel_ok (CEl i k own data kids) x Hok). apply (subels_kid (CEl i k own data kids) x tx x Hx). apply self_in_subels. }
+  cbn [abs_el cel_ids]. rewrite ids_unfold. f_equal. rewrite flat_map_app, flat_ids_atext, <- chain_ids_texts by exact Hd. f_equal.
+  clear Hok Hd. induction IH as [|[x tx] r Hx _ IHr]; [reflexivity|].
+  cbn [flat_map]. rewrite flat_map_app. cbn [flat_map].
+  rewrite flat_ids_atext, <- chain_ids_texts by (apply (Hk x tx); left; reflexivity).
+  cbn [fst] in Hx. rewrite Hx by (apply (Hkok x tx); left; reflexivity).
+  rewrite IHr; [rewrite <- ?app_assoc; reflexivity| |].
+  - intros x0 tx0 H0. apply (Hk x0 tx0). right. exact H0.
+  - intros x0 tx0 H0. apply (Hkok x0 tx0). right. exact H0.
 Qed.
+
+Lemma kid_len_in (x : cel) (tx : chain) kids : In (x, tx) kids ->
+  length (cel_ids x) + length (chain_ids tx)
+  <= length (flat_map (fun kt : cel * chain => match kt with (c, t) => cel_ids c ++ chain_ids t end) kids).
+Proof.
+  induction kids as [|[y ty] r IH]; intros H; [destruct H|]. cbn [flat_map]. rewrite !app_length.
+  destruct H as [H|H]; [injection H as -> ->; lia|specialize (IH H); lia].
+Qed.
+Lemma subel_ids_len c : forall e, In e (c_subels c) -> length (cel_ids e) <= length (cel_ids c).
+Proof.
+  induction c as [i k own data kids IH] using cel_ind'. intros e He. cbn [c_subels] in He.
+  destruct He as [<-|He]; [lia|]. apply in_flat_map in He. destruct He as [[x tx] [Hx He]].
+  rewrite Forall_forall in IH. specialize (IH (x, tx) Hx e He). cbn [fst] in IH.
+  pose proof (kid_len_in x tx kids Hx). cbn [cel_ids length]. rewrite app_length. lia.
+Qed.
+Lemma last_el_ids_split k1 q : last_error (el_ids k1) = Some q ->
+  exists k1' q' tq, k1 = k1' ++ [(q', tq)] /\ cid q' = q.
+Proof.
+  destruct k1 as [|[q' tq] k1'] using rev_ind; [discriminate|]. intros H. unfold el_ids in H. rewrite map_app in H.
+  cbn [map fst] in H. rewrite last_error_app in H. injection H as H. exists k1', q', tq. auto.
+Qed.
+
+Section Prims.
+  Variable c : cel.
+  Variable inh : str.
+  Hypothesis Hok : el_ok c = true.
+  Hypothesis Hnd : NoDup (cel_ids c).
+  Variable fu : nat.
+  Hypothesis Hfu : length (cel_ids c) + 2 <= fu.
+  Local Notation t := (abs_el inh c).
+  Local Notation h := (heap_top c).
+
+  Lemma t_nodup : NoDup (ids t).
+  Proof. rewrite abs_ids by exact Hok. exact Hnd. Qed.
+  Lemma t_size : length (ids t) = length (cel_ids c).
+  Proof. rewrite abs_ids by exact Hok. reflexivity. Qed.
+
+  Lemma data_len e : In e (c_subels c) -> length (ch_app (cdata e)) + 2 <= fu.
+  Proof.
+    intros He. pose proof (subel_ids_len c e He) as H. destruct e as [i k own data kids]. cbn [cel_ids length cdata] in *.
+    rewrite app_length in H. unfold chain_ids in H. rewrite app_length, map_length in H. lia.
+  Qed.
+  Lemma tail_len e x tx : In e (c_subels c) -> In (x, tx) (ckids e) -> length (ch_app tx) + 2 <= fu.
+  Proof.
+    intros He Hx. pose proof (subel_ids_len c e He) as H. destruct e as [i k own data kids]. cbn [cel_ids length ckids] in *.
+    rewrite app_length in H. pose proof (kid_len_in x tx kids Hx) as H1. unfold chain_ids in H1 at 1.
+    rewrite app_length, map_length in H1. lia.
+  Qed.
+
+  Lemma prims_at e n : In e (c_subels c) -> In n (c_items e) ->
+    exists l1 l2, c_items e = l1 ++ n :: l2
+      /\ c_next_raw fu h n = Ok (hd_error l2)
+      /\ c_prev_cand fu h n = Ok (last_error l1)
+      /\ c_parent fu h n = Ok (Some (cid e)).
+  Proof.
+    intros He Hn. pose proof (subel_ok c e Hok He) as Heok. destruct (el_ok_parts e Heok) as [Hd [Hk _]].
+    destruct (subel_obj c Hnd e He) as [up [nx [pv [tl Hobj]]]].
+    pose proof (h_keys c Hnd) as Hkeys.
+    unfold c_items in Hn. apply in_app_or in Hn. destruct Hn as [Hn|Hn].
+    - (* a text node of the data chain *)
+      destruct (chain_cases _ Hd) as [[E1 [E2 E3]]|[hid [s [E1 [E2 Happ]]]]].
+      { unfold chain_texts in Hn. rewrite E1 in Hn. destruct Hn. }
+      assert (Et : map t_id (chain_texts (cdata e)) = hid :: map t_id (ch_app (cdata e))).
+      { unfold chain_texts. rewrite E1, E2. reflexivity. }
+      assert (Hch : cdata e = {| ch_head := Some hid; ch_slot := Some s; ch_app := ch_app (cdata e) |}).
+      { destruct (cdata e). cbn in *. subst. reflexivity. }
+      pose proof (subel_data c e He) as Hincl. rewrite Hch in Hincl. cbn [ch_app] in Hincl. rewrite Et in Hn.
+      destruct (chain_place h Hkeys DATA (cid e) hid s (ch_app (cdata e)) (or_introl eq_refl) Hincl Happ fu (data_len e He) n Hn)
+        as [m1 [m2 [Em [Hnx [Hpv Hpa]]]]].
+      exists m1, (m2 ++ flat_map kitem (ckids e)). split; [unfold c_items; rewrite Et, Em, <- app_assoc; reflexivity|].
+      split; [|split].
+      + rewrite Hnx. destruct m2 as [|y m2']; [|reflexivity]. unfold after_chain, first_el_of. rewrite Hobj.
+        cbn [el_obj e_first_el app]. rewrite hd_flat_kitem. reflexivity.
+      + rewrite Hpv. destruct (last_error m1); reflexivity.
+      + rewrite Hpa. reflexivity.
+    - apply in_flat_map in Hn. destruct Hn as [[x tx] [Hx Hn]]. destruct (in_split _ _ Hx) as [k1 [k2 Ek]].
+      destruct (subel_kid c Hnd e k1 x tx k2 He Ek) as [Hxobj Hxincl].
+      pose proof (Hk x tx Hx) as Htx.
+      set (P := map t_id (chain_texts (cdata e)) ++ flat_map kitem k1).
+      assert (Eitems : c_items e = P ++ cid x :: map t_id (chain_texts tx) ++ flat_map kitem k2).
+      { unfold c_items, P. rewrite Ek, flat_map_app. cbn [flat_map]. unfold kitem at 2. cbn [fst snd].
+        rewrite <- !app_assoc. reflexivity. }
+      unfold kitem in Hn. cbn [fst snd] in Hn. destruct Hn as [<-|Hn].
+      + (* the element-like node x *)
+        exists P, (map t_id (chain_texts tx) ++ flat_map kitem k2). split; [exact Eitems|]. split; [|split].
+        * unfold c_next_raw. rewrite Hxobj. cbn [el_obj e_tail_exists e_tail_node e_getnext].
+          destruct (chain_cases _ Htx) as [[E1 [E2 E3]]|[hid [s [E1 [E2 _]]]]]; unfold ch_exists, chain_texts;
+            destruct tx as [thd tsl tap]; cbn [ch_slot ch_head ch_app] in *; subst thd tsl.
+          -- cbn [map app]. rewrite hd_flat_kitem. reflexivity.
+          -- reflexivity.
+        * unfold c_prev_cand. rewrite Hxobj. cbn [el_obj e_getprevious e_getparent].
+          destruct (last_error (el_ids k1)) as [q|] eqn:Eq.
+          -- destruct (last_el_ids_split k1 q Eq) as [k1' [q' [tq [Ek1 Eqq]]]]. subst q.
+             assert (Ek' : ckids e = k1' ++ (q', tq) :: (x, tx) :: k2) by (rewrite Ek, Ek1, <- app_assoc; reflexivity).
+             destruct (subel_kid c Hnd e k1' q' tq _ He Ek') as [Hqobj Hqincl]. rewrite Hqobj.
+             cbn [el_obj e_tail_exists e_tail_node].
+             assert (Hq : In (q', tq) (ckids e)) by (rewrite Ek'; apply in_or_app; right; left; reflexivity).
+             pose proof (Hk q' tq Hq) as Htq.
+             destruct (chain_cases _ Htq) as [[E1 [E2 E3]]|[hid [s [E1 [E2 Happ]]]]]; unfold ch_exists; rewrite E1.
+             ++ f_equal. unfold P. rewrite Ek1, last_error_app2, last_flat_kitem_empty_tail; [reflexivity|].
+                unfold chain_texts. rewrite E1. reflexivity.
+             ++ rewrite E2.
+                assert (Hch : tq = {| ch_head := Some hid; ch_slot := Some s; ch_app := ch_app tq |}).
+                { destruct tq. cbn in *. subst. reflexivity. }
+                rewrite Hch in Hqincl. cbn [ch_app] in Hqincl.
+                rewrite (cend_head h Hkeys TAIL (cid q') hid s (ch_app tq) Hqincl Happ fu (tail_len e q' tq He Hq)).
+                f_equal. unfold P. rewrite Ek1, last_error_app2, flat_map_app, last_error_app2. cbn [flat_map]. rewrite app_nil_r.
+                unfold kitem. cbn [fst snd]. unfold chain_texts. rewrite E1, E2. cbn [map t_id].
+                rewrite (last_error_cons (cid q')). destruct (last_error (hid :: map t_id (ch_app tq))) eqn:El; [reflexivity|].
+                apply last_error_none in El. discriminate.
+          -- assert (k1 = []) as -> by (apply last_error_none in Eq; destruct k1; [reflexivity|discriminate]).
+             rewrite Hobj. cbn [el_obj e_data_exists e_data_node]. unfold P. cbn [flat_map]. rewrite app_nil_r.
+             destruct (chain_cases _ Hd) as [[E1 [E2 E3]]|[hid [s [E1 [E2 Happ]]]]]; unfold ch_exists; rewrite E1.
+             ++ unfold chain_texts. rewrite E1. reflexivity.
+             ++ rewrite E2.
+                assert (Hch : cdata e = {| ch_head := Some hid; ch_slot := Some s; ch_app := ch_app (cdata e) |}).
+                { destruct (cdata e). cbn in *. subst. reflexivity. }
+                pose proof (subel_data c e He) as Hincl. rewrite Hch in Hincl. cbn [ch_app] in Hincl.
+                rewrite (cend_head h Hkeys DATA (cid e) hid s (ch_app (cdata e)) Hincl Happ fu (data_len e He)).
+                unfold chain_texts. rewrite E1, E2. reflexivity.
+        * unfold c_parent. rewrite Hxobj. reflexivity.
+      + (* a text node of the tail chain of x *)
+        destruct (chain_cases _ Htx) as [[E1 [E2 E3]]|[hid [s [E1 [E2 Happ]]]]].
+        { unfold chain_texts in Hn. rewrite E1 in Hn. destruct Hn. }
+        assert (Et : map t_id (chain_texts tx) = hid :: map t_id (ch_app tx)).
+        { unfold chain_texts. rewrite E1, E2. reflexivity. }
+        assert (Hch : tx = {| ch_head := Some hid; ch_slot := Some s; ch_app := ch_app tx |}).
+        { destruct tx. cbn in *. subst. reflexivity. }
+        rewrite Hch in Hxincl. cbn [ch_app] in Hxincl. rewrite Et in Hn.
+        destruct (chain_place h Hkeys TAIL (cid x) hid s (ch_app tx) (or_intror eq_refl) Hxincl Happ fu (tail_len e x tx He Hx) n Hn)
+          as [m1 [m2 [Em [Hnx [Hpv Hpa]]]]].
+        exists (P ++ cid x :: m1), (m2 ++ flat_map kitem k2).
+        split; [rewrite Eitems, Et, Em, <- !app_assoc; reflexivity|]. split; [|split].
+        * rewrite Hnx. destruct m2 as [|y m2']; [|reflexivity]. unfold after_chain, getnext_of. rewrite Hxobj.
+          cbn [el_obj e_getnext app]. rewrite hd_flat_kitem. reflexivity.
+        * rewrite Hpv, last_error_app2, last_error_cons. destruct (last_error m1); reflexivity.
+        * rewrite Hpa. unfold chain_parent, getparent_of. rewrite Hxobj. reflexivity.
+  Qed.
+End Prims.
+
+(* ---------------------------------------------------------------- what kind of object a node is *)
+Lemma chain_lookup_text (h : heap) pos b hid s app n : NoDup (map fst h) ->
+  incl (chain_objs pos b {| ch_head := Some hid; ch_slot := Some s; ch_app := app |}) h ->
+  In n (hid :: map t_id app) -> exists o, lookup h n = Some (OText o).
+Proof.
+  intros Hkeys Hincl [<-|Hin].
+  - eexists. exact (L_head h Hkeys pos b hid s app Hincl).
+  - apply in_map_iff in Hin. destruct Hin as [a [<- Ha]]. destruct (in_split _ _ Ha) as [la [lb E]].
+    eexists. exact (L_app h Hkeys pos b hid s app Hincl la a lb E).
+Qed.
+
+Section Kinds.
+  Variable c : cel.
+  Variable inh : str.
+  Hypothesis Hok : el_ok c = true.
+  Hypothesis Hnd : NoDup (cel_ids c).
+  Local Notation t := (abs_el inh c).
+  Local Notation h := (heap_top c).
+
+  Lemma text_in_chain ch n : chain_ok ch = true -> In n (map t_id (chain_texts ch)) ->
+    exists hid s, ch = {| ch_head := Some hid; ch_slot := Some s; ch_app := ch_app ch |} /\ In n (hid :: map t_id (ch_app ch))
+                  /\ exists tb, In tb (chain_texts ch) /\ t_id tb = n.
+  Proof.
+    intros Hc Hn. destruct (chain_cases _ Hc) as [[E1 [E2 E3]]|[hid [s [E1 [E2 _]]]]].
+    - unfold chain_texts in Hn. rewrite E1 in Hn. destruct Hn.
+    - exists hid, s. split; [destruct ch; cbn in *; subst; reflexivity|]. split.
+      + unfold chain_texts in Hn. rewrite E1, E2 in Hn. exact Hn.
+      + apply in_map_iff in Hn. destruct Hn as [tb [E Hin]]. exists tb. auto.
+  Qed.
+
+  Lemma node_kind n : In n (ids t) ->
+    (exists e, In e (c_subels c) /\ cid e = n)
+    \/ ((exists o, lookup h n = Some (OText o)) /\ exists tb, In (atext tb) (subtrees t) /\ t_id tb = n).
+  Proof.
+    intros Hn. destruct (ids_abs_place c inh n Hn) as [->|[e [He Hin]]]; [left; exists c; split; [apply self_in_subels|reflexivity]|].
+    pose proof (subel_ok c e Hok He) as Heok. destruct (el_ok_parts e Heok) as [Hd [Hk _]].
+    destruct (subel_subtree c inh e He) as [inh' Hs]. pose proof (h_keys c Hnd) as Hkeys.
+    unfold c_items in Hin. apply in_app_or in Hin. destruct Hin as [Hin|Hin].
+    - right. destruct (text_in_chain _ n Hd Hin) as [hid [s [Hch [Hin' [tb [Htb Eid]]]]]]. split.
+      + pose proof (subel_data c e He) as Hincl. rewrite Hch in Hincl. cbn [ch_app] in Hincl.
+        exact (chain_lookup_text h DATA (cid e) hid s _ n Hkeys Hincl Hin').
+      + exists tb. split; [|exact Eid]. apply (kid_in_subtrees t _ (atext tb) Hs).
+        destruct e as [i k own data kids]. cbn [abs_el ikids cdata] in *. apply in_or_app. left. apply in_map. exact Htb.
+    - apply in_flat_map in Hin. destruct Hin as [[x tx] [Hx Hin]]. unfold kitem in Hin. cbn [fst snd] in Hin.
+      destruct Hin as [<-|Hin].
+      + left. exists x. split; [|reflexivity]. exact (subels_trans c e x He (subels_kid e x tx x Hx (self_in_subels x))).
+      + right. destruct (text_in_chain _ n (Hk x tx Hx) Hin) as [hid [s [Hch [Hin' [tb [Htb Eid]]]]]]. split.
+        * destruct (in_split _ _ Hx) as [k1 [k2 Ek]]. destruct (subel_kid c Hnd e k1 x tx k2 He Ek) as [_ Hincl].
+          rewrite Hch in Hincl. cbn [ch_app] in Hincl.
+          exact (chain_lookup_text h TAIL (cid x) hid s _ n Hkeys Hincl Hin').
+        * exists tb. split; [|exact Eid]. apply (kid_in_subtrees t _ (atext tb) Hs).
+          destruct e as [i k own data kids]. cbn [abs_el ikids ckids] in *. apply in_or_app. right.
+          apply in_flat_map. exists (x, tx). split; [exact Hx|]. right. apply in_map. exact Htb.
+  Qed.
+End Kinds.
